@@ -267,8 +267,8 @@ def decOtherName (t : Nat) (content : Bytes) : Except Err (Option Bytes) :=
     if !validOID oid then .error .syntax else
     match decTLV r1 with
     | none => .error .syntax
-    | some (_t2, v, r2) =>
-      if r2 ≠ [] then .error .structural else
+    | some (_t2, v, _r2) =>
+      -- encoding/asn1 allows extra elements at the end of a SEQUENCE decoded into a struct
       if oid = oidReceptorContent then
         match decString v with
         | .ok s => .ok (some s)
